@@ -32,3 +32,20 @@ func ZZ_C19_BytesDefault() {
 	vrt.Assert(cap(*g) >= n, "default-cap>=n")
 	vrt.Assert(len(*g) == 0 || g == &foreign, "fresh-buffers-are-empty")
 }
+
+// ZZ_C19_ConcurrentGet: one buffer is in the pool; two goroutines Get concurrently: at most one of them receives it.
+func ZZ_C19_ConcurrentGet(max, n int) {
+	p := New(max)
+	seed := p.Get(n)
+	p.Put(seed)
+	var got [2]*[]byte
+	for i := 0; i < 2; i++ {
+		i := i
+		vrt.Go("g"+string(rune('0'+i)), func() { got[i] = p.Get(n) })
+	}
+	vrt.Quiesce()
+	vrt.Assert(got[0] != nil && got[1] != nil, "get-non-nil")
+	vrt.Assert(got[0] != got[1], "exclusive-ownership-under-concurrency")
+	vrt.Assert(cap(*got[0]) >= n && cap(*got[1]) >= n, "cap>=n")
+	vrt.Reach("c19-concurrent-done")
+}
